@@ -275,10 +275,13 @@ struct StreamWorld : IWorld
     return Json("read-ok");
   }
 
-  void readerState(Json &o)
+  void readerState(Json &o, bool withSize = false)
   {
-    o.set("cur", num(rd->cursor));
-    o.set("end", rd->end());
+    Json st = Json::object();
+    st.set("cursor", num(rd->cursor));
+    st.set("end", rd->end());
+    if (withSize) st.set("size", num(rd->buffer->size()));
+    o.set("st", st);
   }
 
   Json step(const Json &act) override
@@ -295,13 +298,12 @@ struct StreamWorld : IWorld
       write(arg["item"]);
       o.set("len", num(w.buffer->size() - before));
       o.set("total", num(w.buffer->size()));
-      o.set("calc", num(calc.writtenSize));
+      o.set("predicted", num(calc.writtenSize));
     } else if (a == "Open" || a == "OpenAll" || a == "OpenFrac") {
       // OpenAll: everything written; OpenFrac: the first pm/1000 of it (rounded down)
       const size_t total = w.buffer->size();
       open(a == "Open" ? (size_t)arg["k"].num() : a == "OpenAll" ? total : (total * (size_t)arg["pm"].num()) / 1000);
-      o.set("size", num(rd->buffer->size()));
-      readerState(o);
+      readerState(o, true);
     } else if (a == "Read" || a == "Probe") {
       if (!rd) throw std::runtime_error("driver: no reader");
       try {
